@@ -14,6 +14,7 @@ Families (see META["rule"]):
               module/class level state of the pdfminer package, to closure
   tree        every history of length 2 (quick) / 3 (thorough), no dedup
   interleave  every interleaving of next() on the page iterators of every document pair
+  api         one PDFDocument/manager/interpreter/device reused for every ordered pair (triple) of API calls
   idorder     all k-subsets of a 3x3 grid of equidistant text boxes, id() order ascending vs descending
 """
 from __future__ import annotations
@@ -56,10 +57,10 @@ META = {
     ),
     "bound": {
         "quick": "pool of 12 colliding documents (222 operations); bfs over the 72 whole-document operations to closure (cap depth 8); all histories of length 2 "
-                 "whose first call is a whole-document call with caching on and whose second is any operation except single pages with caching off (36 x 148); every whole-document operation after a document that interns 34000 distinct names; encrypted documents (RC4-40, RC4-128, V4/V2, AESV2, AESV3 x 2 file keys, same plaintext and object numbers): every ordered pair A then B x {text, pages, xml; text with caching off}, plus interleaved iterators of the two keys of each family; all 20 interleavings of the 3+3 "
+                 "whose first call is a whole-document call with caching on and whose second is any operation except single pages with caching off (36 x 148); every whole-document operation after a document that interns 34000 distinct names; API objects: for each of 15 documents (pool, a navigation document with page labels/outlines/destinations, two encrypted ones) x caching, one PDFDocument + resource manager + interpreters + aggregator + TextConverter reused for every ordered pair of calls from {get_page_labels, create_pages, two interleaved create_pages, get_outlines, get_dest x5, layout of all pages, text of all pages}, each answer compared with the answer on fresh objects, and layout/text with extract_pages/extract_text; encrypted documents (RC4-40, RC4-128, V4/V2, AESV2, AESV3 x 2 file keys, same plaintext and object numbers): every ordered pair A then B x {text, pages, xml; text with caching off}, plus interleaved iterators of the two keys of each family; all 20 interleavings of the 3+3 "
                  "next() calls of every document pair incl. a document with itself (78 pairs; caching on, for a document with itself also off/off and on/off); "
                  "all 3- and 4-subsets of a 3x3 grid x 2 boxes_flow",
-        "thorough": "same pool; bfs over all 222 operations to closure; the 34000-names prefix as quick; encrypted documents: all ordered triples (text) in addition to the pairs; all histories of length 3 over the 36 whole-document calls followed by "
+        "thorough": "same pool; bfs over all 222 operations to closure; the 34000-names prefix as quick; encrypted documents: all ordered triples (text) in addition to the pairs; API objects: all ordered triples of calls; all histories of length 3 over the 36 whole-document calls followed by "
                     "any of the 222 operations at depth 2 and the 36 at depth 3; interleavings as quick; 3-,4-,5-subsets of the grid x 4 boxes_flow",
     },
     "assumptions": [
@@ -334,6 +335,7 @@ def build_pool() -> dict:
     pool["leak"] = _build_leak()
     pool["bignames"] = _build_bignames()
     pool.update(_build_crypt())
+    pool["nav"] = _build_nav()
     # -- distance ties between text boxes
     f = _font("FontA", N("WinAnsiEncoding"), fixed=True)
     pool["ties"] = grid_doc([0, 2, 4, 6, 8], font=f, second=[1, 3, 5, 7])
@@ -463,6 +465,32 @@ def _build_bignames():
     d.set(pages, {"Type": N("Pages"), "Kids": [p1], "Count": 1, "MediaBox": [0, 0, 612, 792]})
     d.set(p1, {"Type": N("Page"), "Parent": pages, "Resources": {"Font": {"F1": f}}, "Contents": s1})
     return d.write(cat)
+
+
+def _build_nav():
+    """Three pages with a /PageLabels number tree (roman, then 'App-' decimal from 7), nested outlines with Dest / A, a Dests
+    name tree with Kids and an old-style /Dests dictionary.  Used by the 'api' family (object reuse)."""
+    d = Doc()
+    cat, pages, p1, p2, p3 = d.reserve(), d.reserve(), d.reserve(), d.reserve(), d.reserve()
+    f = d.add(_font("FontA", N("WinAnsiEncoding")))
+    res = {"Font": {"F1": f}}
+    conts = [d.add(Stream({}, _text("F1", 12, 72, 700 - 40 * i, b"PAGE " + bytes([65 + i])))) for i in range(3)]
+    root, o1, o11, o2 = d.reserve(), d.reserve(), d.reserve(), d.reserve()
+    d.set(root, {"Type": N("Outlines"), "First": o1, "Last": o2, "Count": 3})
+    d.set(o1, {"Title": b"One", "Parent": root, "Next": o2, "Dest": b"d1", "First": o11, "Last": o11, "Count": 1})
+    d.set(o11, {"Title": b"\xfe\xff\x00S\x00u\x00b", "Parent": o1, "A": {"S": N("GoTo"), "D": [p2, N("Fit")]}})
+    d.set(o2, {"Title": b"Two", "Parent": root, "Prev": o1, "Dest": [p3, N("XYZ"), 0, 792, None]})
+    leaf1 = d.add({"Limits": [b"d1", b"d1"], "Names": [b"d1", [p1, N("Fit")]]})
+    leaf2 = d.add({"Limits": [b"d2", b"d2"], "Names": [b"d2", {"D": [p2, N("XYZ"), 0, 0, 0]}]})
+    dests = d.add({"Kids": [leaf1, leaf2]})
+    d.set(cat, {"Type": N("Catalog"), "Pages": pages, "Outlines": root, "Names": {"Dests": dests},
+                "Dests": {"d3": [p3, N("Fit")]},
+                "PageLabels": {"Nums": [0, {"S": N("r")}, 2, {"P": b"App-", "S": N("D"), "St": 7}]}})
+    d.set(pages, {"Type": N("Pages"), "Kids": [p1, p2, p3], "Count": 3, "MediaBox": [0, 0, 612, 792], "Resources": res})
+    for i, p in enumerate((p1, p2, p3)):
+        d.set(p, {"Type": N("Page"), "Parent": pages, "Contents": conts[i], **({"Rotate": 90} if i == 1 else {})})
+    info = d.add({"Title": b"nav"})
+    return d.write(cat, info=info)
 
 
 # encrypted documents: every handler family x two different file keys, same plaintext, same object numbers
@@ -1139,6 +1167,142 @@ def shard_crypt(st, first_doc, tier):
         st.sample({"family": "crypt", "history": [list(first)], "then": [list(o) for o in CRYPT_OPS[:4]], "documents": CRYPT_DOCS})
 
 
+# -------------------------------------------------------------------------- api shards
+# One PDFDocument / PDFResourceManager / interpreter / device / converter, used for several calls in a row: every call
+# must answer what it answers as the first call on freshly made objects.
+API_CALLS = ["labels", "walk", "walk-interleaved", "outlines", "dests", "layout", "text"]
+API_DOCS = DOCS + ["nav", CRYPT_DOCS[0], CRYPT_DOCS[-1]]
+
+
+class ApiObjects:
+    def __init__(self, pdf: bytes, caching: bool):
+        from pdfminer.converter import PDFPageAggregator, TextConverter
+        from pdfminer.layout import LAParams
+        from pdfminer.pdfdocument import PDFDocument
+        from pdfminer.pdfinterp import PDFPageInterpreter, PDFResourceManager
+        from pdfminer.pdfparser import PDFParser
+
+        self.doc = PDFDocument(PDFParser(io.BytesIO(pdf)), caching=caching)
+        self.rm = PDFResourceManager(caching=caching)
+        self.agg = PDFPageAggregator(self.rm, laparams=LAParams())
+        self.ip = PDFPageInterpreter(self.rm, self.agg)
+        self.sio = io.StringIO()
+        self.tc = TextConverter(self.rm, self.sio, laparams=LAParams())
+        self.tip = PDFPageInterpreter(self.rm, self.tc)
+
+    def call(self, name: str):
+        from pdfminer.pdfdocument import PDFDestinationNotFound, PDFNoOutlines, PDFNoPageLabels
+        from pdfminer.pdfpage import PDFPage
+
+        def page_id(p):
+            return (p.pageid, p.label, p.rotate, canon(p.mediabox), canon(p.attrs))
+
+        try:
+            if name == "labels":
+                try:
+                    it = self.doc.get_page_labels()
+                except PDFNoPageLabels:
+                    return ("ok", ["no page labels"])
+                return ("ok", [repr([next(it) for _ in range(5)])])
+            if name == "walk":
+                return ("ok", [repr(page_id(p)) for p in PDFPage.create_pages(self.doc)])
+            if name == "walk-interleaved":
+                a, b = PDFPage.create_pages(self.doc), PDFPage.create_pages(self.doc)
+                ra, rb, live = [], [], [(a, None), (b, None)]
+                live = [[a, ra], [b, rb]]
+                while live:
+                    for ent in list(live):
+                        try:
+                            ent[1].append(repr(page_id(next(ent[0]))))
+                        except StopIteration:
+                            live.remove(ent)
+                return ("ok", ["A:"] + ra + ["B:"] + rb)
+            if name == "outlines":
+                try:
+                    return ("ok", [repr(canon(o)) for o in self.doc.get_outlines()])
+                except PDFNoOutlines:
+                    return ("ok", ["no outlines"])
+            if name == "dests":
+                out = []
+                for key in (b"d1", b"d2", "d3", b"missing", b"d1"):
+                    try:
+                        out.append(repr(canon(self.doc.get_dest(key))))
+                    except PDFDestinationNotFound:
+                        out.append("not found")
+                return ("ok", out)
+            if name == "layout":
+                parts = []
+                try:
+                    for p in PDFPage.create_pages(self.doc):
+                        self.ip.process_page(p)
+                        parts.append(repr(canon(self.agg.get_result())))
+                except Exception as e:  # noqa
+                    return ("exc:" + _exc(e), parts)
+                return ("ok", parts)
+            if name == "text":
+                start = len(self.sio.getvalue())
+                try:
+                    for p in PDFPage.create_pages(self.doc):
+                        self.tip.process_page(p)
+                except Exception as e:  # noqa
+                    return ("exc:" + _exc(e), [self.sio.getvalue()[start:]])
+                return ("ok", [self.sio.getvalue()[start:]])
+        except Exception as e:  # noqa
+            return ("exc:" + _exc(e), [])
+        raise ValueError(name)
+
+
+def _api_seq(args):
+    """Child: fresh API objects for the document, then the calls in order; returns every call's result."""
+    doc, caching, seq = args
+    install_id("asc")
+    o = ApiObjects(pool()[doc], caching)
+    return [o.call(c) for c in seq]
+
+
+def api_sequences(tier):
+    n = 3 if tier == "thorough" else 2
+    return [seq for k in range(2, n + 1) for seq in itertools.product(API_CALLS, repeat=k)]
+
+
+def shard_api(st, doc, tier):
+    pool()
+    first = True
+    for caching in (True, False):
+        ref = {c: fork_call(_api_seq, (doc, caching, (c,)))[0] for c in API_CALLS}
+        st.states += 1
+        # the API level agrees with the high-level functions
+        if doc in DOCS:
+            R = refs([(doc, "text", caching, None), (doc, "pages", caching, None)])
+            for c, k in (("text", "text"), ("layout", "pages")):
+                hl = R[(doc, k, caching, None)]
+                st.case(("api-hl", doc, caching, c), nontrivial=True, outcome=rhash(ref[c]))
+                same = ref[c][0] == hl[0] and (hl[0] != "ok" and c == "text" or list(ref[c][1]) == list(hl[1]))  # extract_text returns nothing when it raises
+                if not same:
+                    fd = first_diff(hl, ref[c])
+                    st.violation(f"C12/api-differs-from-high-level:{c}", {"family": "api", "docs": {doc: pool()[doc]}, "doc": doc, "caching": caching, "seq": [c], "hl": k},
+                                 fd.get("expected", fd), fd.get("observed", fd), "the documented API recipe and the high_level function disagree")
+        for seq in api_sequences(tier):
+            got = fork_call(_api_seq, (doc, caching, seq))
+            st.transitions += len(seq)
+            st.states += len(seq)
+            st.traces += 1
+            st.case(("api", doc, caching, seq), nontrivial=True, outcome=rhash(got[-1]))
+            for i, (c, g) in enumerate(zip(seq, got)):
+                if i == 0:
+                    continue  # first call on fresh objects is the reference itself
+                if g != ref[c]:
+                    fd = first_diff(ref[c], g)
+                    st.violation(f"C12/api-object-reuse:{c}-after-{seq[i-1]}" if seq[i-1] != c else f"C12/api-object-reuse:{c}-twice",
+                                 {"family": "api", "docs": {doc: pool()[doc]}, "doc": doc, "caching": caching, "seq": list(seq[: i + 1])},
+                                 fd.get("expected", fd), fd.get("observed", fd),
+                                 f"call {i + 1} ({c}) on reused PDFDocument/manager/interpreter/device answers differently than on fresh objects")
+                    break
+            if first and doc == "nav":
+                st.sample({"family": "api", "doc": doc, "sequence": list(seq), "first_results": [r[1][:2] for r in got]})
+                first = False
+
+
 # ------------------------------------------------------------------ interleave shards
 def _interleave(args):
     (da, ca), (db, cb), sched = args
@@ -1238,6 +1402,7 @@ def shards(tier):
     refs(par=8)
     out = [("ref",), ("bfs",), ("names",)]
     out += [("crypt", d) for d in CRYPT_DOCS]
+    out += [("api", d) for d in API_DOCS]
     # interleaved iterators over two encrypted documents with different keys (same handler family, and across the RC4 families)
     out += [("il", CRYPT_DOCS[i], CRYPT_DOCS[i + 1]) for i in range(0, len(CRYPT_DOCS), 2)] + [("il", CRYPT_DOCS[0], CRYPT_DOCS[3]), ("il", CRYPT_DOCS[2], CRYPT_DOCS[5])]
     out += [("tree", op) for op in WHOLE_OPS]
@@ -1257,6 +1422,8 @@ def run_shard(shard, tier, st):
         shard_names(st)
     elif fam == "crypt":
         shard_crypt(st, shard[1], tier)
+    elif fam == "api":
+        shard_api(st, shard[1], tier)
     elif fam == "tree":
         shard_tree(st, shard[1], tier)
     elif fam == "il":
